@@ -1,17 +1,20 @@
 #!/bin/sh
-# usage: tools_matrix.sh [tier] [parallel]
+# usage: tools_matrix.sh [tier] [parallel] [glob of seed directories, default C*]   (with a glob: results are merged into RESULTS.txt)
 # Runs, for every seed in /verif/seeded, the check of the property it was written for (plus the checks listed in
 # seeded/<id>/also.txt) in an isolated scratch worktree + harness copy (tools_seedtest_iso.sh: /repo and /verif stay
 # untouched) and writes /verif/seeded/RESULTS.txt.
-TIER=${1:-quick}; PAR=${2:-2}
+TIER=${1:-quick}; PAR=${2:-2}; GLOB=${3:-C*}
 OUT=/verif/seeded/RESULTS.txt
 TMP=$(mktemp -d /dev/shm/matrix.XXXXXX)
-ls -d /verif/seeded/C*/ | while read d; do
+ls -d /verif/seeded/$GLOB/ | while read d; do
   n=$(basename $d); prop=${n%-*}
   checks="$prop"; [ -f $d/also.txt ] && checks="$checks $(cat $d/also.txt)"
   echo "$n $checks"
 done > $TMP/jobs
 xargs -P $PAR -L 1 sh -c '/verif/tools_seedtest_iso.sh /verif/seeded/$0/patch.diff '"$TIER"' "$@" | grep "^seed=" | sed "s/KNOWN-FINDING.*//" | cut -c1-200 > '"$TMP"'/$0.out' < $TMP/jobs
-cat $TMP/*.out | sort > $OUT
+if [ "$GLOB" = "C*" ]; then cat $TMP/*.out | sort > $OUT; else
+  for f in $TMP/*.out; do n=$(basename $f .out); grep -v "^seed=$n " $OUT > $OUT.new 2>/dev/null; mv $OUT.new $OUT; done
+  cat $TMP/*.out >> $OUT; sort -o $OUT $OUT
+fi
 rm -rf $TMP
 echo "detected (rc=1): $(grep -c 'rc=1' $OUT) lines; not detected by that check:"; grep "rc=0\|rc=2" $OUT
